@@ -134,6 +134,9 @@ func (obj *SparseInt64Vector) SET(x *SparseInt64Vector) {
   }
 }
 func (obj *SparseInt64Vector) SLICE(i, j int) *SparseInt64Vector {
+  if i < 0 || i > j || j > obj.n {
+    panic(fmt.Errorf("slice (%d:%d) out of bounds for vector of dimension %d", i, j, obj.n))
+  }
   r := nilSparseInt64Vector(j-i)
   for it := obj.indexIteratorFrom(i); it.Ok(); it.Next() {
     if it.Get() >= j {
